@@ -104,16 +104,27 @@ class C18(PropCheck):
             elif d is not None:
                 failures.append({"kind": "disagreement", "key": "C18:hldiff",
                                  "what": "half-lock step trace differs from the model at step %d: model `%s` vs implementation `%s`" % d, "payload": payload})
+        # registry level: two half-locks, first registrations, unregister_signal
+        from . import c02
+        rcres = c02.C18rc().correspond(tier, seed, rng)
+        failures += rcres["failures"]
+        dist["registry_scenarios"] = rcres["evaluations"]
+        for k, v in rcres["distribution"].items():
+            if k.startswith("end:"):
+                dist["registry_" + k] = v
         uniq = {}
         for f in failures:
             uniq.setdefault(f["key"], f)
-        return {"evaluations": len(results), "distinct_nontrivial": nontrivial,
+        return {"evaluations": len(results) + rcres["evaluations"], "distinct_nontrivial": nontrivial + rcres["distinct_nontrivial"],
                 "rule": "random scenarios with 2-5 threads, mostly writers (incl. no-store writes and stores whose old value's destructor panics under the writer mutex) plus readers, on the real HalfLock under the deterministic PRNG scheduler; compared step by step with the Lean model; monitors: runs to completion (no deadlock / livelock within the budget), quiescent completion bound (8 own steps), poisoned mutex does not stop later writers; non-trivial = at least two write calls",
                 "samples": [{"scenario": results[0]["scenario"], "schedule": " ".join(results[0]["schedule"]), "trace": results[0]["impl"][:12]}] if results else [],
                 "traces_validated_against_impl": len(results), "steps_compared": steps, "distribution": dist,
                 "failures": list(uniq.values())}
 
     def replay(self, payload):
+        if any(l.startswith("setup") or " reg" in l or "deliver" in l for l in payload["scenario"]):
+            from . import c02
+            return c02.C18rc().replay(payload)
         sc = [l for l in payload["scenario"] if not l.startswith("seed")] + ["schedule " + " ".join(payload["schedule"])]
         r = hl.run_batch([sc])[0]
         probs = monitor_c18(r["impl"], r["status"])
